@@ -462,3 +462,8 @@ M("C02", "C02-API", TJ, "                max_posterior_samples=max_posterior_sam
 M("C03", "C03-API", TJ, "                max_posterior_samples=max_posterior_samples,\n                n_linear_samples=n_linear_samples,\n                return_logprobs=return_logprobs,\n", "                max_posterior_samples=max_posterior_samples,\n                return_logprobs=return_logprobs,\n", "file path ignores n_linear_samples")
 M("C02", "C02-TRUNC", LH, "        max_posterior_samples = len(prior_samples_batch)\n", "        max_posterior_samples = len(prior_samples_batch) - 1\n", "default limit drops the last accepted sample")
 M("C01", "C01-", LH, "    if prior_samples_batch.dtype != np.float64:\n        prior_samples_batch = prior_samples_batch.astype(np.float64)\n\n    # memoryview is returned\n", "    prior_samples_batch = prior_samples_batch.astype(np.float32).astype(np.float64)\n\n    # memoryview is returned\n", "packed batch rounded to single precision")
+M("C14", "C14-CHAIN", MP, "        all_idx = np.arange(0, max_prior_samples, 1)\n", "        all_idx = np.resize(np.arange(0, n_total_samples, 1), max_prior_samples)\n", "row order tiled to the budget (seeded C14-C)")
+M("C14", "C14-WRAP", UT, "            finally:\n                os.unlink(f.name)\n", "            finally:\n                os.unlink(f.name)\n                return func_return\n", "return inside finally swallows failures (seeded C14-D)")
+M("C13", "C13-TMP", UT, "            finally:\n                os.unlink(f.name)\n", "            finally:\n                os.unlink(f.name)\n                return func_return\n", "return inside finally swallows failures (seeded C14-D)")
+T("C14", MP, "        all_idx = rng.choice(n_total_samples, size=max_prior_samples, replace=False)\n", "        all_idx = rng.permutation(n_total_samples)[:max_prior_samples]\n", "prefix of a permutation")
+T("C13", UT, "            f = NamedTemporaryFile(mode=\"r+\", suffix=\".hdf5\", delete=False)\n            f.close()\n", "            f = NamedTemporaryFile(mode=\"r+\", suffix=\".hdf5\", delete=False)\n            f.close()\n            func_return = None\n", "harmless constant binding before the try")
